@@ -100,7 +100,13 @@ def _field_chunk(args):
     wp.copy(d.qvel, wp.array(np.tile(qv, (nworld, 1)), dtype=float))
     for _ in range(nsteps):
       mjw.step(m, d)
-    return {k: getattr(d, k).numpy().copy() for k in OBS if k != "nacon"}, d.overflow.numpy().copy()
+    obs = {k: getattr(d, k).numpy().copy() for k in OBS if k != "nacon"}
+    # constraint rows as sorted multisets per world: parameters that only shape rows which happen to carry no force are still observed
+    ne = d.nefc.numpy()
+    for f in ("D", "aref", "pos", "frictionloss"):
+      a = getattr(d.efc, f).numpy()
+      obs["efc." + f] = np.stack([np.sort(np.where(np.arange(a.shape[1]) < ne[w], a[w], np.float32(0))) for w in range(nworld)])
+    return obs, d.overflow.numpy().copy()
 
   for cont, name in fields:
     base = mjw.put_model(mjm)
